@@ -520,7 +520,15 @@ void Exec::step(const Step &s) {
   if (t == "becomemonitor") {
     // n=[flags, deliver] s=[rules...]
     std::vector<wire::Value> rules;
-    for (auto &r : s.s) rules.push_back(wire::Value::string(r));
+    for (auto r : s.s) {
+      // "$uK" inside rule text: the unique name of client K
+      for (size_t p = r.find("$u"); p != std::string::npos; p = r.find("$u", p + 1)) {
+        size_t e = p + 2;
+        while (e < r.size() && isdigit((unsigned char)r[e])) e++;
+        r = r.substr(0, p) + resolve_name(r.substr(p, e - p)) + r.substr(e);
+      }
+      rules.push_back(wire::Value::string(r));
+    }
     wire::Msg m = wire::Msg::method_call(c.next_serial++, bm::BUS, "/org/freedesktop/DBus", "org.freedesktop.DBus.Monitoring", "BecomeMonitor",
                                          {wire::Value::array("s", rules), wire::Value::u32((uint32_t)s.N(0, 0))});
     c.asked_monitor = true;
